@@ -232,7 +232,6 @@ static void eq_run_history(const int *op_kind, const int *op_api, const int *op_
             S[s].func = f; S[s].arg = a; S[s].weight = weight; S[s].cbdata = cb;
             S[s].ts = when > 0.0 ? now + when : 0.0;
             S[s].pending = 1; S[s].cancelled = 0; S[s].fired = 0;
-            LEMMA(!(S[s].ts < now) || S[s].ts == 0.0, "spec: a due time is never before the time of scheduling, except the as-soon-as-possible 0");
             eq_op_schedule(api, s, f, a, when, weight, cb, now);
             ++eq_nsched;
             RCH(when > 0.0, "schedule with a positive delay");
